@@ -312,19 +312,22 @@ def check_history(case):
     try:
         inner = Inner(())
         rc = R.RetryingClient(inner, attempts=attempts, retry_delay=0.5, **kw)
+        # half of the cases keep the looked-up method object and call it repeatedly (`get = rc.get` in a loop, or
+        # rc.get handed over as a callback): the retry budget belongs to each call, not to the method object
+        kept = rc.get if (len(seqs) + len(rf) + len(dn) + sum(map(len, seqs))) % 2 else None
         for ci, seq in enumerate(seqs):
             seq = tuple(seq)[:attempts] if 0 not in seq[:attempts] else tuple(seq)[:list(seq).index(0) + 1]
             inner.seq, inner.calls, inner.raised = seq + (0,) * attempts, [], []
             del sleeps[:]
             try:
-                r = rc.get("k")
+                r = kept("k") if kept is not None else rc.get("k")
                 got = ("ok",) if r is OKV else ("wrong-value",)
             except Exception as e:  # noqa: BLE001
                 got = ("exc", [i for i, x in enumerate(inner.raised) if x is e][:1])
             padded = tuple(seq) + (0,) * attempts
             want_calls, want, _f = reference(attempts, padded, rf, dn)
-            desc = "call %d of %r on one RetryingClient(attempts=%d, retry_for=%r, do_not_retry_for=%r)" % (
-                ci, [[("ok" if o == 0 else CLASSES[o - 1].__name__) for o in s_] for s_ in seqs], attempts,
+            desc = "call %d%s of %r on one RetryingClient(attempts=%d, retry_for=%r, do_not_retry_for=%r)" % (
+                ci, " (through a kept `rc.get` method object)" if kept is not None else "", [[("ok" if o == 0 else CLASSES[o - 1].__name__) for o in s_] for s_ in seqs], attempts,
                 [CLASSES[j].__name__ for j in rf], [CLASSES[j].__name__ for j in dn])
             if len(inner.calls) != want_calls:
                 raise Violation(["history-invocations"], "inner invoked %d times, expected %d: %s" % (len(inner.calls), want_calls, desc))
